@@ -1,5 +1,11 @@
 package main
 
+import (
+	"sort"
+
+	"golang.org/x/tools/go/ssa"
+)
+
 func init() {
 	props["C01"] = propC01
 	props["C02"] = propC02
@@ -225,4 +231,58 @@ func propC14(w *World, r *Run) {
 	ruleOneWitness(w, r, "C14.a")
 	ruleEveryFeeder(w, r, "C14.b")
 	ruleNeverGivesUp(w, r, "C14.c")
+}
+
+func init() {
+	props["C17"] = propC17
+	props["C18"] = propC18
+	props["C19"] = propC19
+}
+
+func propC17(w *World, r *Run) {
+	r.expl = "Decides exhaustively over a finite set: every entry of every YAML file that a go:embed directive of package omniwitness names (working-tree content) is validated: its public key is parsed by the very function production code uses (formats/note.NewVerifier), its origin's ID is unique within the file, its feeder name is a key of the feederByName registry (after the normalisation ParseFeeder applies), and its URL passes the checks its feeder makes at start: url.Parse, the query parameter the rekor feeder insists on, the schemes for which the serverless feeder does not panic, an absolute http(s) URL for the HTTP-only feeders. All constraint sets are extracted from the repository's code on every run, not frozen in the checker. Code side: FeedFunc covers every registry value other than none; ParseFeeder/UnmarshalYAML fail on unknown names; Main routes every entry through config.NewLog and AsLogMap and aborts on the first error before anything is launched."
+	r.notdec = []string{"that the remote logs exist or that the keys are the right ones", "URL trailing-slash conventions of relative tile paths"}
+	r.trusted = append(tbCommon, "formats/note.NewVerifier, formats/log.ID, net/url.Parse, gopkg.in/yaml.v3 (pinned libraries, used as the production code uses them)")
+	ruleShippedConfig(w, r, "C17.a")
+	ruleEveryFeeder(w, r, "C17.b")
+	ruleOneWitness(w, r, "C17.b")
+	ruleConfigKeying(w, r, "C17.b")
+}
+
+func propC18(w *World, r *Run) {
+	r.expl = "Path strings for all coordinates and proof validity are numeric/format results and are not decided. Decides only constant agreement and coordinate plumbing: client.pathBase equals tlog's unexported pathBase, every format literal of client.tilePath occurs in the reference tlog.Tile.Path and tilePath splits by that base with the reference loop condition, TileData's URL follows tile/<height>/<level>/<path>[.p/<width>] (PATHBASE); one tileHeight constant feeds NewSumDB, tileReader.Height() and leavesPerTile == 1<<tileHeight (HEIGHT-COHERENT); ReadTiles passes (t.L, t.N, t.W or a non-positive 'full' marker exactly when t.W == leavesPerTile) in TileData's (level, offset, partial) positions and appends one result per tile in order; TileData takes the partial suffix iff partial > 0; the pixel reader's verbs are (t.H, t.L, t.N) (COORDINATES); ProveTree is called as (to.Size, from.Size, TileHashReader(Tree{N: to.Size, Hash: to.Hash}, reader)) (PROVE-ARGS)."
+	r.notdec = []string{"the x%03d carry encoding for all indices (O3: an off-by-one inside tilePath's arithmetic is invisible to constant agreement)", "acceptance of the proofs by an RFC 6962 verifier"}
+	r.trusted = append(tbCommon, "golang.org/x/mod/sumdb/tlog (reference implementation, pinned)")
+	ruleSumDBConstants(w, r)
+}
+
+func propC19(w *World, r *Run) {
+	r.expl = "Decides structural necessary conditions: no explicit panic is reachable (module call graph incl. closures and every implementation of invoked interface methods) from the network-input roots (EXPLICIT-PANIC); every index/slice/slice-to-array/unchecked type assertion/non-constant division instruction in those functions is dominated, on every path reaching it, by branch facts that imply it is in bounds (zone domain), or is listed in a confirmed-safe table keyed by function and operand with a reason (IMPLICIT-PANIC SITES); uint64->int64 conversions of checkpoint sizes handed to tlog.ProveTree are bounded by a constant <= 2^62 (SIZE-NARROWING; above it tlog.maxpow2 never terminates); every endpoint path writes exactly one documented status (ALWAYS-ANSWERS = C10.c); the bastion handler is wrapped in http.MaxBytesHandler(h, c <= 16 KiB) (BODY-CAP); HTTP/2 server, its base config, the witness HTTP server, the bastion dial and the outbound client carry positive timeouts and each feed cycle runs under a deadline (TIMEOUTS-PRESENT); counters are initialised before any handler exists (COUNTERS-INITIALISED = C20.d)."
+	r.notdec = []string{"termination in general and memory exhaustion (unbounded io.ReadAll on log/distributor responses is listed, not decided)", "panics inside dependencies", "fuzz-style exploration of inputs (different technique family)"}
+	r.trusted = append(tbCommon, "strings.Split returns >= 1 element; note.Open returns >= 1 verified signature on success; tlog.ParseTree enforces a 32-byte root")
+	reach := ruleExplicitPanic(w, r, "C19.a")
+	ruleImplicitPanic(w, r, "C19.b", reach)
+	ruleSumDBRaw(w, r, "C19.b")
+	ruleSizeNarrowing(w, r, "C19.c")
+	ruleServeHTTP(w, r, "C19.d", "C19.d", "C19.d")
+	ruleCapsAndTimeouts(w, r, "C19.e", "C19.f")
+	ruleNeverGivesUp(w, r, "C19.f")
+	ruleInitBeforeUse(w, r, "C19.g")
+	// unbounded reads: listed, not decided
+	var unb []string
+	for fn := range reach {
+		for _, b := range fn.Blocks {
+			for _, in := range b.Instrs {
+				if c, ok := in.(*ssa.Call); ok {
+					if sc := c.Call.StaticCallee(); sc != nil && funcName(sc) == "io.ReadAll" {
+						if _, limited := c.Call.Args[0].(*ssa.Call); !limited {
+							unb = append(unb, w.pos(c.Pos()))
+						}
+					}
+				}
+			}
+		}
+	}
+	sort.Strings(unb)
+	r.extra["io_ReadAll_sites_not_decided"] = unb
 }
